@@ -67,7 +67,7 @@ def _extract_one(src, flags, extra_tag=""):
 
 
 class Func(object):
-    __slots__ = ("unit", "name", "d", "nodes", "parent", "blocks", "entry", "exit", "preds", "elem_block", "_order")
+    __slots__ = ("unit", "name", "d", "nodes", "parent", "blocks", "entry", "exit", "preds", "elem_block", "_order", "_dom", "_live")
 
     def __init__(self, unit, d):
         self.unit = unit
@@ -152,6 +152,78 @@ class Func(object):
 
     def type_of(self, n):
         return self.unit.types[n["t"]] if "t" in n else None
+
+    def dominators(self):
+        """block id -> set of dominating block ids (iterative; CFGs here are small)"""
+        d = getattr(self, "_dom", None)
+        if d is not None:
+            return d
+        order = self.rpo()
+        allb = set(order)
+        dom = {b: set(allb) for b in order}
+        dom[self.entry] = {self.entry}
+        changed = True
+        while changed:
+            changed = False
+            for b in order:
+                if b == self.entry:
+                    continue
+                ps = [p for p in self.preds.get(b, ()) if p in dom]
+                new = set(allb)
+                for p in ps:
+                    new &= dom[p]
+                new.add(b)
+                if new != dom[b]:
+                    dom[b] = new
+                    changed = True
+        self._dom = dom
+        return dom
+
+    def liveness(self):
+        """block id -> set of decl ids of locals/params live at block entry (backward may-analysis)"""
+        lv_ = getattr(self, "_live", None)
+        if lv_ is not None:
+            return lv_
+        use, deff = {}, {}
+        for b, blk in self.blocks.items():
+            u, d = set(), set()
+            for e in blk["e"]:
+                n = self.nodes[e]
+                k = n["k"]
+                if k == "Ref" and n.get("dk") in ("local", "param"):
+                    par = self.par(n)
+                    is_def = False
+                    if par is not None:
+                        a = assigned(par)
+                        if a is not None and strip(a[0]) is n and a[1] == "=":
+                            is_def = True       # pure definition (not a use); compound ops read too
+                    if not is_def and n["did"] not in d:
+                        u.add(n["did"])
+                elif k == "DeclStmt":
+                    for v in n["c"]:
+                        d.add(v["did"])
+                else:
+                    a = assigned(n)
+                    if a is not None:
+                        t = strip(a[0])
+                        if t["k"] == "Ref" and t.get("dk") in ("local", "param"):
+                            d.add(t["did"])
+            use[b], deff[b] = u, d
+        live = {b: set() for b in self.blocks}
+        changed = True
+        while changed:
+            changed = False
+            for b in reversed(self.rpo()):
+                out = set()
+                for s in self.blocks[b]["s"]:
+                    if s is not None:
+                        out |= live[s]
+                new = use[b] | (out - deff[b])
+                if new != live[b]:
+                    live[b] = new
+                    changed = True
+        self._live = live
+        return live
 
     def rpo(self):
         """reverse post-order of reachable blocks from entry"""
